@@ -243,7 +243,7 @@ def const_of(e: Optional[ast.AST]):
     return "expr"
 
 
-LATER_RULES = ' Later rules: R16.4 emptiness by iteration; R16.6/R16.12 through helpers; R16.11 also while-else and remove_dead_ifs; R16.13 counts parameters; (R16.14) analysers keep no module-level memory; (R16.15) named callees and undecorated functions only. (R16.23) the only stored name that is no effect is `_`, compared by equality with the constant; (R16.22) the whitelist handed to recursive calls is that of the caller, never a locally widened one; (R16.21) optional parameters of has_side_effect that recursive calls leave out have empty defaults; (R16.20) a with statement does not block through an exception raised in its body (the context manager may swallow it).'
+LATER_RULES = ' Later rules: R16.4 emptiness by iteration; R16.6/R16.12 through helpers; R16.11 also while-else and remove_dead_ifs; R16.13 counts parameters; (R16.14) analysers keep no module-level memory; (R16.15) named callees and undecorated functions only. (R16.24) the live branch of a decided `if` is not put in its place when the node is written as `elif`; (R16.23) the only stored name that is no effect is `_`, compared by equality with the constant; (R16.22) the whitelist handed to recursive calls is that of the caller, never a locally widened one; (R16.21) optional parameters of has_side_effect that recursive calls leave out have empty defaults; (R16.20) a with statement does not block through an exception raised in its body (the context manager may swallow it).'
 
 
 def check(prog: Program, tier: str) -> Result:
@@ -299,7 +299,8 @@ def check(prog: Program, tier: str) -> Result:
     _r16_21(prog, res)
     _r16_22(prog, res)
     _r16_23(prog, res)
-    res.floors.update({"R16.23": 2, "R16.22": 1, "R16.21": 1, "R16.20": 1, "R16.1": 60, "R16.2": 25, "R16.3": 10, "R16.4": 2, "R16.5": 1, "R16.6": 3, "R16.7": 8, "R16.8": 5, "R16.9": 2, "R16.10": 4, "R16.11": 1, "R16.12": 1, "R16.13": 1, "R16.15": 2, "R16.16": 3, "R16.17": 1, "R16.18": 4, "R16.19": 1})
+    _r16_24(prog, res)
+    res.floors.update({"R16.24": 1, "R16.23": 2, "R16.22": 1, "R16.21": 1, "R16.20": 1, "R16.1": 60, "R16.2": 25, "R16.3": 10, "R16.4": 2, "R16.5": 1, "R16.6": 3, "R16.7": 8, "R16.8": 5, "R16.9": 2, "R16.10": 4, "R16.11": 1, "R16.12": 1, "R16.13": 1, "R16.15": 2, "R16.16": 3, "R16.17": 1, "R16.18": 4, "R16.19": 1})
     res.analysed.update({"ast_kinds": len(kinds)})
     return res
 
@@ -939,6 +940,43 @@ def _r16_18(prog: Program, res: Result) -> None:
 
 
 # ------------------------------------------------------------------------------------------------ R16.19
+# ------------------------------------------------------------------------------------------------ R16.24
+def _r16_24(prog: Program, res: Result) -> None:
+    """An `elif` IS an `if` in the syntax tree (the only statement of the else branch above), but its text stands at the level of that
+    `if`.  A rule that replaces an If node with a decided test by the text of its live branch, at the node's own column, turns
+    `if c: a / elif True: b` into `if c: a` followed by `b`: b now runs also when c held - code that was unreachable on that path is
+    reached (and a `continue` / `return` among it makes what follows unreachable).  Obligation: every rewrite that puts the statements of
+    a branch in the place of their If (a Range rewrite built from the node's span and the text of `node.body` / `node.orelse`) is
+    reached only under a test that the node is not written as `elif`."""
+    from ..pathcond import PathAnalysis, plain
+    from ..defuse import bindings
+    n = 0
+    for fn in prog.funcs.values():
+        if not fn.is_fix:
+            continue
+        ys = [y for y in walk_own(fn.node) if isinstance(y, ast.Yield) and isinstance(y.value, ast.Tuple) and len(y.value.elts) >= 2
+              and isinstance(y.value.elts[0], ast.Call) and norm(y.value.elts[0].func).endswith("Range")]
+        if not ys:
+            continue
+        # the branch whose statements are hoisted: a local bound to <node>.body and to <node>.orelse in the same function
+        hoisted = [nm for nm, defs in bindings(fn).items() if {v.attr for _s, v in defs if isinstance(v, ast.Attribute)} >= {"body", "orelse"}
+                   and len({norm(v.value) for _s, v in defs if isinstance(v, ast.Attribute)}) == 1]
+        if not hoisted:
+            continue
+        subj = [norm(v.value) for _s, v in bindings(fn)[hoisted[0]] if isinstance(v, ast.Attribute)][0]
+        pa = PathAnalysis(prog, fn)
+        for y in ys:
+            n += 1
+            worlds = pa.worlds_at(y)
+            ok = bool(worlds) and all(any(f[0] == "lit" and not f[2] and "elif" in plain(f[1]) for f in w.facts) for w in worlds)
+            res.decide(ok, "R16.24", fn.loc(y), fn.fq, f"{short(y, 70)} # a branch put in the place of its if statement",
+                       f"only for an `if` that is not written as `elif` ({subj})" if ok else
+                       f"the statements of the live branch of {subj} replace the node at its own column also when the node is an `elif`: they leave the else branch of the "
+                       "`if` above and run on every path - `if c: a / elif True: continue` becomes `if c: a` followed by an unconditional `continue`")
+    if n == 0:
+        res.undecided("R16.24", "pyrefact/fixes.py:0", "fixes", "branches put in the place of their if statement", "none found (remove_dead_ifs is expected)")
+
+
 # ------------------------------------------------------------------------------------------------ R16.23
 def _r16_23(prog: Program, res: Result) -> None:
     """Binding a name is an effect - with ONE documented exception: the name `_`.  The consumers (and safe mode: C07 R7.2 / R7.6 ask for
@@ -1441,6 +1479,7 @@ def _positive(test: ast.AST) -> bool:
 from ..selftest import Variant  # noqa: E402
 
 VARIANTS: List[Variant] = [
+    Variant("elif-branch-hoisted-to-the-level-of-its-if", "FIRE", "fixes", "            if source[node_start:node_end].startswith(\"elif\"):\n                continue  # Its branches are part of the else branch of the if above, not statements next to it\n\n", "", "R16.24"),
     Variant("arguments-judged-with-the-widened-whitelist", "FIRE", "core", "            or any(has_side_effect(item, safe_callable_whitelist) for item in node.args)\n", "            or any(has_side_effect(item, callee_whitelist) for item in node.args)\n", "R16.22"),
     Variant("with-blocks-only-without-raise-or-assert-inside", "REPAIRED", "core", '    if isinstance(node, ast.With):\n        return any(is_blocking(child, parent_type) for child in node.body)\n',
             "    if isinstance(node, ast.With):\n        if any(walk(node, (ast.Raise, ast.Assert))):\n            return False\n        return any(is_blocking(child, parent_type) for child in node.body)\n", "R16.20"),
